@@ -216,3 +216,26 @@ Example c09_band_channel_instance :
 Proof.
   repeat apply conj; (rewrite c09_band_channel by lia); vm_compute; reflexivity.
 Qed.
+
+(* ---------------- c09_code_rtinit_refines_model: the hypotheses hold for a concrete three-word header at address 4096, and the
+   theorem's conclusion, computed: init succeeds, _arg lands after the third present word ---------------- *)
+From Coq Require Import String.
+From LW Require Import Base.CExpr Gen.Sites Spec.CodeSpec Proofs.CodeSecurity Proofs.CodeRadiotapInit.
+Local Open Scope string_scope.
+Definition ex_chain3 : list byte :=
+  [0; 0; 24; 0;   2; 0; 0; 160;   32; 0; 0; 160;   32; 0; 0; 0;   16; 200; 0; 0;  201; 0; 0; 0].
+Definition ex_init_env : env :=
+  env_of [("max_length", 24); ("radiotap_header", 4096); ("radiotap_header->it_version", 0);
+          ("&radiotap_header->it_len", 4098); ("&radiotap_header->it_present", 4100); ("vns", 0); ("&radiotap_ns", 8192)].
+Example c09_code_rtinit_refines_model_nonvacuous :
+  wfbytes ex_chain3 /\ zlen ex_chain3 = 24 /\
+  (exists it, rt_init (rd_strict ex_chain3) 24 = Done (Ok it) /\ r_arg it = Some 16 /\ r_shift it = 2684354562 /\ r_max it = 24) /\
+  wp (60 + 8 * 24) (mem_at 4096 ex_chain3) ex_init_env [] body_ieee80211_radiotap_iterator_init
+     (fun o => exists rho1 tr1, o = Returned (Some 0) rho1 tr1 /\ rho1 "iterator->_arg" = 4096 + 16 /\
+                                rho1 "iterator->_next_bitmap" = 4096 + 8 /\ List.length tr1 = 5%nat).
+Proof.
+  split; [vm_compute; repeat constructor; discriminate | ].
+  split; [reflexivity | ].
+  split; [eexists; split; [vm_compute; reflexivity | repeat split] | ].
+  exists 200%nat. split; [cbn; lia | ]. vm_compute. split; [discriminate | ]. eexists _, _. repeat split.
+Qed.
